@@ -15,6 +15,9 @@ Monitor shape: executable three-line reference + cross-implementation comparison
   own RFC 6455 header parser: client frames must carry the mask bit and payload == XOR(app bytes, header key),
   server frames no mask bit and the bytes verbatim, keys must differ between frames.  The octets are also fed
   (randomly chopped) into the real peer protocol whose delivered payloads must equal what was sent.
+  ``sendFrame()`` is also called directly with its optional arguments (``payload_len`` = repeated / truncated
+  payload, explicit ``mask`` keys, ``chopsize`` / ``sync`` queued writes) as single-frame messages, continuation
+  sequences and control frames: the application bytes of such a frame are the documented repetition of ``payload``.
 """
 
 import os
